@@ -64,7 +64,9 @@ def household(draw, code, K, allow_weights):
          'kind': draw(st.sampled_from(['household', 'expectations', 'household'])),
          'alpha_income': dec4(draw(st.integers(500, 9500))),
          'alpha_fin': dec4(draw(st.integers(500, 9500))),
-         'weights': None, 'ic_F': None}
+         'weights': None, 'ic_F': None,
+         # "Uses the TaxRate of this object, or the TaxRate of the sector (if it is defined)": sector-level rate
+         'own_taxrate': draw(st.sampled_from([None, None, None, dec4(draw(st.integers(0, 6000)))]))}
     if allow_weights:
         wk = draw(st.sampled_from(['const', 'rate', 'const']))
         if wk == 'const':
@@ -114,7 +116,8 @@ def add_private(draw, c, K, deposit_available, multi_required=False):
                 'via_ctor': draw(st.booleans())}
     if bk == 'single' and draw(gen.chance(1, 3)):
         c['cap'] = {'code': 'CAP', 'alpha_income': dec4(draw(st.integers(500, 9500))),
-                    'alpha_fin': dec4(draw(st.integers(500, 9500)))}
+                    'alpha_fin': dec4(draw(st.integers(500, 9500))),
+                    'own_taxrate': draw(st.sampled_from([None, None, dec4(draw(st.integers(0, 6000)))]))}
 
 
 @st.composite
@@ -427,6 +430,11 @@ def _construct(spec, out, mod, zsel, nm, dsc, make_external, order_seed, hooks):
                 S[(zi, ci, 'cb')].Treasury = S[(zi, ci, 'gov')]
             if c['bus'] is not None and c['bus']['kind'] == 'multi' and not c['bus']['via_ctor']:
                 S[(zi, ci, 'bus')].AddMarket(S[(zi, ci, 'goods')])
+            for hi, h in enumerate(c['hh']):
+                if h.get('own_taxrate') is not None:
+                    S[(zi, ci, 'hh%d' % hi)].AddVariable('TaxRate', dsc('sector tax rate'), h['own_taxrate'])
+            if c['cap'] is not None and c['cap'].get('own_taxrate') is not None:
+                S[(zi, ci, 'cap')].AddVariable('TaxRate', dsc('sector tax rate'), c['cap']['own_taxrate'])
             # second household shares the labour market
             if len(c['hh']) > 1:
                 lab = S[(zi, ci, 'labour')]
